@@ -10,6 +10,7 @@ PRIZE_UNIT = 8  # prize k -> k/8 ; the float 1.0 (the requirement rl4co hard-cod
 
 
 class PCTSP(Adapter):
+    reward_from_actions = True
     """Prize-collecting TSP.  inst: N, D, prize[1..N], pen[1..N], req, unit (+ decoy, pts, grid).
     prize/req are in units of 1/8, penalties in the distance unit 1/grid; `decoy` is what is
     handed to the environment as the prize vector it must NOT use (PCTSP: stochastic_prize)."""
